@@ -5,7 +5,7 @@ pub mod gen;
 pub mod tape;
 
 pub use bridge::*;
-pub use engine::{cli_main, guard, must_panic, total, Case, CaseResult, Ctx, Fail, PropSpec, SubCheck, Tier, PROFILE};
+pub use engine::{cli_main, FuzzHost, guard, must_panic, total, Case, CaseResult, Ctx, Fail, PropSpec, SubCheck, Tier, PROFILE};
 pub use tape::Tape;
 
 pub use crypto_bigint;
